@@ -51,7 +51,7 @@ Ev(k) == Trace[s].ev[k]
 Max(a, b) == IF a >= b THEN a ELSE b
 
 \* the class of frame header the contract predicts for the write process p is about to make
-DataCls(m, f) == (IF f = 1 THEN "first" ELSE "cont") \o (IF f = Len(prog.msgs[m]) THEN "+fin" ELSE "")
+DataCls(m, f) == IF IsDClose(m) THEN "close" ELSE (IF f = 1 THEN "first" ELSE "cont") \o (IF f = Len(prog.msgs[m]) THEN "+fin" ELSE "")
 WriteCls(p) == IF pc[p] \in {"extra", "cext"} THEN "raw"
                ELSE IF p = "D" THEN DataCls(call[p], fr) ELSE Op(p)
 
